@@ -69,12 +69,13 @@ def xorBytes : Bytes → Bytes → Bytes
   | a :: as, b :: bs => Nat.xor a b :: xorBytes as bs
   | _, _ => []
 
-/-- the loop `for i in 2..=ell` of `ExpanderXmd::expand`; `cnt = ell + 1 - i` iterations remain -/
-def xmdLoop (H : Bytes → Bytes) (b0 dp : Bytes) : Nat → Nat → Bytes → Bytes → Bytes
-  | 0, _, _, acc => acc
-  | cnt + 1, i, bi, acc =>
+/-- the loop `for i in 2..=ell` of `ExpanderXmd::expand` (`cnt = ell + 1 - i` iterations remain, `bi` the previous
+    block): the bytes appended to `uniform_bytes` -/
+def xmdLoop (H : Bytes → Bytes) (b0 dp : Bytes) : Nat → Nat → Bytes → Bytes
+  | 0, _, _ => []
+  | cnt + 1, i, bi =>
     let bi' := H (xorBytes b0 bi ++ [i % 256] ++ dp)
-    xmdLoop H b0 dp cnt (i + 1) bi' (acc ++ bi')
+    bi' ++ xmdLoop H b0 dp cnt (i + 1) bi'
 
 /-- `ExpanderXmd::<H>{dst, block_size}.expand(msg, n)`; `bLen = H::OutputSize`.
     Panics: `assert!(ell <= 255)`, the `unwrap` in `DST::new_xmd`, `assert!(n < 1 << 16)`,
@@ -90,7 +91,7 @@ def expandXmd (H : Bytes → Bytes) (bLen : Nat) (blockSize : Nat) (dst msg : By
     let dp := dstUpdate dstPrime
     let b0 := H (List.replicate blockSize 0 ++ msg ++ libStr ++ [0] ++ dp)
     let b1 := H (b0 ++ [1] ++ dp)
-    let uniform := xmdLoop H b0 dp (ell - 1) 2 b1 b1       -- `2..=ell` is empty when ell < 2
+    let uniform := b1 ++ xmdLoop H b0 dp (ell - 1) 2 b1    -- `2..=ell` is empty when ell < 2
     .ok (uniform.take n)                                   -- truncate(n)
 
 /-- `get_len_per_elem::<F, SEC_PARAM>()` with `modBits = F::BasePrimeField::MODULUS_BIT_SIZE` -/
@@ -99,10 +100,11 @@ def getLenPerElem (modBits secParam : Nat) : Nat := (modBits + secParam + 7) / 8
 /-- big-endian bytes → integer -/
 def os2ip (b : Bytes) : Nat := b.foldl (fun acc x => acc * 256 + x) 0
 
-/-- `&uniform_bytes[off..][..len]` (two slice operations, each may panic) -/
-def subSlice (b : Bytes) (off len : Nat) : Outcome Bytes :=
-  if off > b.length then .panic
-  else let t := b.drop off; if len > t.length then .panic else .ok (t.take len)
+/-- `&uniform_bytes[off..][..len]` (two slice operations, each may panic); the vector is an `Array` so that the
+    indexing costs `O(len)` as in Rust (`(b.extract off (off+len)).toList = (b.toList.drop off).take len`) -/
+def subSlice (b : Array Nat) (off len : Nat) : Outcome Bytes :=
+  if off > b.size then .panic
+  else if len > b.size - off then .panic else .ok (b.extract off (off + len)).toList
 
 def omapM {α β : Type} (f : α → Outcome β) : List α → Outcome (List β)
   | [] => .ok []
@@ -116,7 +118,8 @@ def hashToField (H : Bytes → Bytes) (bLen : Nat) (p modBits m secParam N : Nat
     Outcome (List (List Nat)) :=
   let L := getLenPerElem modBits secParam
   let lenInBytes := N * m * L
-  obind (expandXmd H bLen L dst msg lenInBytes) fun ub =>
+  obind (expandXmd H bLen L dst msg lenInBytes) fun ubl =>
+  let ub := ubl.toArray
   omapM (fun i => omapM (fun j =>
       obind (subSlice ub (L * (j + i * m)) L) fun tv => .ok (os2ip tv % p))   -- from_be_bytes_mod_order
     (List.range m)) (List.range N)
@@ -290,6 +293,51 @@ def swSmulAux (a : F) : Nat → Nat → SwPt F → SwPt F → SwPt F
 /-- `k · P` (double-and-add, LSB first) -/
 def swSmul (a : F) (k : Nat) (P : SwPt F) : SwPt F := swSmulAux a (k.log2 + 2) k P none
 
+/-! Jacobian evaluation of `k · P` (run-time only: the driver uses it for the 255-bit `r · P = O` test and the
+    636-bit `h_eff` of G2, where one field inversion per group operation is too slow).  Obligation, not used by the
+    definitions above: `swSmulJ a k P = swSmul a k P` for `P` on the curve; the driver re-checks this equality on
+    every line whose scalar is short (G1, toy curves). -/
+
+def jacDbl (a : F) (P : F × F × F) : F × F × F :=
+  let (x1, y1, z1) := P
+  if z1 = 0 ∨ y1 = 0 then (1, 1, 0)
+  else
+    let xx := x1 * x1; let yy := y1 * y1; let yyyy := yy * yy; let zz := z1 * z1
+    let s := x1 * yy; let s := s + s; let s := s + s
+    let m := xx + xx + xx + a * (zz * zz)
+    let x3 := m * m - (s + s)
+    let y8 := yyyy + yyyy; let y8 := y8 + y8; let y8 := y8 + y8
+    (x3, m * (s - x3) - y8, (y1 + y1) * z1)
+
+def jacAdd (a : F) (P Q : F × F × F) : F × F × F :=
+  let (x1, y1, z1) := P
+  let (x2, y2, z2) := Q
+  if z1 = 0 then Q else if z2 = 0 then P
+  else
+    let z1z1 := z1 * z1; let z2z2 := z2 * z2
+    let u1 := x1 * z2z2; let u2 := x2 * z1z1
+    let s1 := y1 * z2 * z2z2; let s2 := y2 * z1 * z1z1
+    if u1 = u2 then (if s1 = s2 then jacDbl a P else (1, 1, 0))
+    else
+      let h := u2 - u1; let r := s2 - s1
+      let h2 := h * h; let h3 := h * h2; let v := u1 * h2
+      let x3 := r * r - h3 - (v + v)
+      (x3, r * (v - x3) - s1 * h3, z1 * z2 * h)
+
+def jacSmulAux (a : F) : Nat → Nat → F × F × F → F × F × F → F × F × F
+  | 0, _, _, acc => acc
+  | fuel + 1, k, base, acc =>
+    if k = 0 then acc
+    else jacSmulAux a fuel (k / 2) (jacDbl a base) (if k % 2 = 1 then jacAdd a acc base else acc)
+
+def swSmulJ (a : F) (k : Nat) (P : SwPt F) : SwPt F :=
+  match P with
+  | none => none
+  | some (x, y) =>
+    let (X, Y, Z) := jacSmulAux a (k.log2 + 2) k (x, y, 1) (1, 1, 0)
+    if Z = 0 then none
+    else let zi := Z⁻¹; let zi2 := zi * zi; some (X * zi2, Y * (zi2 * zi))
+
 def teAdd (a d : F) (P Q : F × F) : F × F :=
   let (x1, y1) := P
   let (x2, y2) := Q
@@ -428,17 +476,21 @@ def ceilDiv (a b : Nat) : Nat := if a % b == 0 then a / b else a / b + 1
 def effectiveDst (H : Bytes → Bytes) (dst : Bytes) : Bytes :=
   if dst.length > 255 then H ("H2C-OVERSIZE-DST-".toUTF8.toList.map (·.toNat) ++ dst) else dst
 
-/-- steps 9–10 of §5.3.1: the list `b_1, …, b_ell` -/
-def blocksB (H : Bytes → Bytes) (b0 dstPrime : Bytes) : Nat → List Bytes
-  | 0 => []
-  | 1 => match i2osp 1 1 with
-         | some one => [H (b0 ++ one ++ dstPrime)]
-         | none => []
-  | i + 1 =>
-    let prev := blocksB H b0 dstPrime i
-    match prev.getLast?, i2osp (i + 1) 1 with
-    | some bPrev, some ib => prev ++ [H (strxor b0 bPrev ++ ib ++ dstPrime)]
-    | _, _ => prev
+/-- steps 9–10 of §5.3.1: the list `b_i, …, b_ell` given `b_(i-1)` (`cnt = ell + 1 - i` blocks remain):
+    `b_i = H(strxor(b_0, b_(i - 1)) || I2OSP(i, 1) || DST_prime)` -/
+def blocksFrom (H : Bytes → Bytes) (b0 dstPrime : Bytes) : Nat → Nat → Bytes → List Bytes
+  | 0, _, _ => []
+  | cnt + 1, i, bPrev =>
+    match i2osp i 1 with
+    | some ib => let bi := H (strxor b0 bPrev ++ ib ++ dstPrime); bi :: blocksFrom H b0 dstPrime cnt (i + 1) bi
+    | none => []
+
+/-- steps 8–10 of §5.3.1: the list `b_1, …, b_ell` (`b_1 = H(b_0 || I2OSP(1, 1) || DST_prime)`) -/
+def blocksB (H : Bytes → Bytes) (b0 dstPrime : Bytes) (ell : Nat) : List Bytes :=
+  if ell = 0 then []
+  else match i2osp 1 1 with
+    | some one => let b1 := H (b0 ++ one ++ dstPrime); b1 :: blocksFrom H b0 dstPrime (ell - 1) 2 b1
+    | none => []
 
 /-- §5.3.1 `expand_message_xmd(msg, DST, len_in_bytes)`; `none` = ABORT.
     Parameters: `H`, `bInBytes` (output size of `H`), `sInBytes` (input block size of `H`). -/
@@ -470,11 +522,12 @@ def hashToField (H : Bytes → Bytes) (bInBytes sInBytes : Nat) (p m k : Nat) (d
   let lenInBytes := count * m * L                                              -- 1
   match expandMessageXmd H bInBytes sInBytes msg dst lenInBytes with          -- 2
   | none => none
-  | some uniform =>
+  | some uniformL =>
+    let uniform := uniformL.toArray
     some ((List.range count).map fun i =>                                      -- 3
       (List.range m).map fun j =>                                              -- 4
         let elmOffset := L * (j + i * m)                                       -- 5
-        let tv := (uniform.drop elmOffset).take L                              -- 6
+        let tv := (uniform.extract elmOffset (elmOffset + L)).toList           -- 6  substr(uniform_bytes, elm_offset, L)
         os2ip tv % p)                                                          -- 7
 
 /-- §4.1 `sgn0(x)` for `x = (x_1, …, x_m)` -/
